@@ -69,6 +69,8 @@ def pool(rng, kind, hostile=0.25, tags=None):
         return p
     if kind == "uint64":
         return [0, 1, 2, 5, 2**53, 2**53 + 1, 2**63, 2**64 - 1]
+    if kind == "uint32":
+        return [0, 1, 2, 5, 16777217, 2**31, 2**32 - 1]
     if kind in ("float", "float32"):
         p = list(FLOAT_SMALL)
         if kind == "float" and h:
@@ -183,7 +185,7 @@ def np_column(kind, values):
         return np.array(values, dtype=np.int32)
     if kind == "uint64":
         return np.array(values, dtype=np.uint64)
-    if kind in ("uint8", "int16", "uint16", "int8"):
+    if kind in ("uint8", "int16", "uint16", "int8", "uint32"):
         return np.array(values, dtype=kind)
     if kind in ("datetime_s", "datetime_ms", "datetime_ns"):
         unit = kind.split("_")[1]
